@@ -1641,6 +1641,9 @@ class Interp:
                     r = (a == b)
                 else:
                     r = a is b
+            elif (isinstance(a, Opaque) or isinstance(b, Opaque)) and a is not b:
+                # an unmodelled value may or may not be this very object
+                return Opaque("identity of an unmodelled value")
             else:
                 r = a is b
             if isinstance(op, ast.IsNot):
